@@ -134,7 +134,13 @@ def tlc(module, cfg, workers=8, extra="", env=None, timeout=1800, metadir=None, 
 def model_check(module, cfg, workers=12, timeout=1800, extra=""):
     """exhaustive TLC run of a code-layer configuration; any error is a tool error (the model
     is wrong about the design, nothing is said about /repo)"""
-    key = sha("mc", module, cfg, extra, tree_hash(SPEC, (".tla", ".cfg")))
+    # the result depends on the model modules and this config only (not on the Trace* observers)
+    h = hashlib.sha256()
+    for f in sorted(os.listdir(SPEC)):
+        if (f.endswith(".tla") and not f.startswith("Trace")) or f == os.path.basename(cfg):
+            h.update(f.encode())
+            h.update(open(os.path.join(SPEC, f), "rb").read())
+    key = sha("mc", module, cfg, extra, h.hexdigest())
     cf = os.path.join(CACHE, f"mc-{key}.json")
     if os.path.exists(cf):
         return json.load(open(cf))
